@@ -459,7 +459,12 @@ func FinalizeSites(p *Project) {
 				if s.RecvType == "" {
 					continue
 				}
-				// own package first
+				// a single-type import decides first (it shadows a type of the own package), then the own package
+				if full, ok := single[s.RecvType]; ok {
+					pk := full[:strings.LastIndex(full, ".")]
+					s.Resolved, s.RecvPkg = true, pk
+					continue
+				}
 				var own *File
 				for _, c := range proj[s.RecvType] {
 					if c.Pkg == f.Pkg {
@@ -468,11 +473,6 @@ func FinalizeSites(p *Project) {
 				}
 				if own != nil {
 					s.Resolved, s.RecvPkg = true, f.Pkg
-					continue
-				}
-				if full, ok := single[s.RecvType]; ok {
-					pk := full[:strings.LastIndex(full, ".")]
-					s.Resolved, s.RecvPkg = true, pk
 					continue
 				}
 				// project type of another package reached through a wildcard import, or an unimported
